@@ -79,10 +79,11 @@ def doRun (cols : List Column) (checks : List (Check CState)) (header : Nat) (wi
     let stopK : Option Nat := if stop == "n" then none else some stop.toNat!
     if stopK == some 0 then
       if api == "v" then
-        -- `validate(…, validate_until=0)`: islice never starts the generator (no reset), the `with` block still closes
-        let c := closeValidator checks sts
-        ("ev=~ fin=unstarted acc=n rej=n close=" ++ (match c.1 with | none => "ok" | some i => "chk" ++ toString i) ++
-          " log=" ++ encList (c.2.map encCall), sts)
+        -- `validate(…, validate_until=0)` (`Run.validate0`): `rows()` resets the checks, no row is ever requested, the `with` block closes
+        let out := runOne cols checks id sts .validate0
+        let c := closeValidator checks out.2
+        ("ev=~ fin=unstarted acc=n rej=n close=" ++ (match out.1.closeFail with | none => "ok" | some i => "chk" ++ toString i) ++
+          " log=" ++ encList ((resetCalls checks.length ++ c.2).map encCall), out.2)
       else ("ev=~ fin=unstarted acc=n rej=n close=skipped log=~", sts)
     else
       let cut : Option Nat := match stopK with
